@@ -259,6 +259,9 @@ def check(repo, rep, tier):
     r_same_result(repo, rep)
     rp.r_tree_factories(repo, rep, 'R12.3')
     r_label_recovery(repo, rep)
+    from ..lints import r_no_reordering
+    r_no_reordering(repo, rep, 'R12.3', [('depccg/tools/reader.py', 'read_xml'), ('depccg/tools/reader.py', 'read_jigg_xml')],
+                    'the children of a node (the label is looked up for the pair left, right as the file lists them)')
     rep.rule('R12.5', 'the active grammar is the one selected for the process; the rule cache and the id-keyed containers live as long as one call')
     from ..lints import r_language_setting
     r_language_setting(repo, rep, 'R12.5', 'the readers pick the rule set by get_global_language() when they are called, so files read there are labelled with the '
